@@ -11,7 +11,8 @@ RULE = (
     "cases = one generated history (labels, arguments, hook fault plans, initial forest) applied in lock-step to a universe of a NodeMixin "
     "class and a universe of a slotted LightNodeMixin class, both with logging hooks. Enumerated: every labelled ordered forest over N <= 3 "
     "(quick) / N <= 4 (thorough) x every call with tree-node arguments x every single fault position; generated: Hypothesis histories "
-    "(<= 7 nodes, <= 25 calls). After every call outcome class, forest snapshot and hook log are compared; after the history every "
+    "(<= 7 nodes, <= 25 calls). After every call outcome class, forest snapshot and hook log are compared, and (except in every third generated history, which stays read-free until its end) "
+    "the navigation attributes and util helpers of every node before the first and after every call; after the history every "
     "navigation attribute, util helper, the five iterators (with filter/stop/maxlevel), Walker on all pairs, Resolver.get/glob on generated "
     "paths and RenderTree rows/text are compared as label-mapped values. Non-trivial = history with >= 1 refused or vetoed call and >= 1 "
     "successful link change (enumerated single steps: the call changed a link or raised after a hook ran)."
@@ -43,8 +44,8 @@ def safe(func):
         return "raised " + type(exc).__name__
 
 
-def observe(universe, labels):
-    """Every read-only query, mapped to labels."""
+def observe(universe, labels, full=True):
+    """Every read-only query, mapped to labels (full=False: the navigation attributes and helpers only)."""
     L = labels.label
     LL = labels.labels
     out = {}
@@ -65,6 +66,9 @@ def observe(universe, labels):
         o["commonancestors-1"] = safe(lambda: LL(util.commonancestors(node)))
         o["leftsibling"] = L(util.leftsibling(node))
         o["rightsibling"] = L(util.rightsibling(node))
+        if not full:
+            out[i] = o
+            continue
         stop = lambda n: labels.label(n) % 3 == 2  # noqa: E731
         filt = lambda n: labels.label(n) % 2 == 0  # noqa: E731
         for name, it in (("pre", PreOrderIter), ("post", PostOrderIter), ("level", LevelOrderIter)):
@@ -102,6 +106,24 @@ def observe(universe, labels):
     return out
 
 
+def compare_observations(obs_a, obs_b, uni_a, rec_a, when):
+    if obs_a != obs_b:
+        for i in obs_a:
+            for key in obs_a[i]:
+                if obs_a[i][key] != obs_b[i].get(key):
+                    raise Violation("query:" + key.split(":")[0], "%s: node %s %s: NodeMixin %r, LightNodeMixin %r (forest %s)" % (when, i, key, obs_a[i][key], obs_b[i].get(key), mut.snapshot(uni_a, rec_a.labels)))
+        raise Violation("query", "observations differ")
+
+
+def observe_both(rec_a, uni_a, rec_b, uni_b, full, when):
+    mut.CURRENT[0] = rec_a
+    obs_a = observe(uni_a, rec_a.labels, full)
+    mut.CURRENT[0] = rec_b
+    obs_b = observe(uni_b, rec_b.labels, full)
+    compare_observations(obs_a, obs_b, uni_a, rec_a, when)
+    return obs_a
+
+
 def check_case(case, acc):
     state = case.get("state") or mut.all_roots(case["n"])
     route = case.get("route", "parent")
@@ -109,7 +131,12 @@ def check_case(case, acc):
     rec_a, uni_a = mut.make_universe(pair[0], state, route)
     rec_b, uni_b = mut.make_universe(pair[1], state, route)
     changes = refused = 0
-    for item in case["steps"]:
+    # the queries are asked before the first call and after every call as well (values remembered from an earlier
+    # question must not survive a later change of the tree), unless the case asks for a read-free history
+    reads_between = case.get("reads_between", True)
+    if reads_between:
+        observe_both(rec_a, uni_a, rec_b, uni_b, False, "before the first call")
+    for stepno, item in enumerate(case["steps"]):
         op, plan = item["op"], item.get("plan") or {}
         results = []
         for rec, uni in ((rec_a, uni_a), (rec_b, uni_b)):
@@ -136,16 +163,9 @@ def check_case(case, acc):
             changes += 1
         if out_a != ["ok"]:
             refused += 1
-    mut.CURRENT[0] = rec_a
-    obs_a = observe(uni_a, rec_a.labels)
-    mut.CURRENT[0] = rec_b
-    obs_b = observe(uni_b, rec_b.labels)
-    if obs_a != obs_b:
-        for i in obs_a:
-            for key in obs_a[i]:
-                if obs_a[i][key] != obs_b[i].get(key):
-                    raise Violation("query:" + key.split(":")[0], "node %s %s: NodeMixin %r, LightNodeMixin %r (forest %s)" % (i, key, obs_a[i][key], obs_b[i].get(key), mut.snapshot(uni_a, rec_a.labels)))
-        raise Violation("query", "observations differ")
+        if reads_between and stepno + 1 < len(case["steps"]):
+            observe_both(rec_a, uni_a, rec_b, uni_b, False, "after call %d" % stepno)
+    obs_a = observe_both(rec_a, uni_a, rec_b, uni_b, True, "after the history")
     if len(case["steps"]) == 1:
         acc.nontrivial(changes > 0 or (refused > 0 and bool(results[0][2])))
     else:
@@ -178,7 +198,7 @@ def run_task(task, acc):
     else:
         from hypothesis import strategies as st
 
-        strat = st.tuples(mut.history_strategy(max_nodes=7, max_steps=25, faults="all+evict", invalid=False, class_specs=["HNM"]), st.sampled_from(["plain", "plain", "eq"])).map(lambda t: dict(t[0], pair=t[1]))
+        strat = st.tuples(mut.history_strategy(max_nodes=7, max_steps=25, faults="all+evict", invalid=False, class_specs=["HNM"]), st.sampled_from(["plain", "plain", "eq"])).map(lambda t: dict(t[0], pair=t[1], reads_between=t[0]["n"] % 3 != 0))
         acc.run_hypothesis(check_case, strat, task["examples"], task["seed"])
 
 
